@@ -58,8 +58,11 @@ Section Dict.
   Definition dlast (d : dict) (k : K) : option V := dget (rev d) k.
 
   (* OrderedDict([(k, m[k]) for k in sorted(m, key=...)]) — the converters of
-     HelicityModel.  Modelled as insertion into a strictly sorted list w.r.t. [kltb];
-     the natural-sort key is assumed injective on the keys of one dictionary. *)
+     HelicityModel.  Modelled as insertion into a strictly sorted list w.r.t. [kltb], a
+     strict TOTAL order on keys: the converters' sort key is (natural_sorting(name), name)
+     since /repo b7082dd, hence injective on names (before that fix 'm_01' and 'm_1' tied
+     and the tie was resolved by insertion order; bridge/purity_C06.py re-checks on every
+     model that no two keys of one dictionary share a sort key). *)
   Fixpoint insert (k : K) (v : V) (l : dict) : dict :=
     match l with
     | [] => [(k, v)]
